@@ -338,8 +338,12 @@ fn run(name: &PathBuf, debugger_opts: Option<debugger::Options>, minimal: bool) 
 
 /// Write `bytes` to `path` completely, or leave `path` as it was.
 fn write_object_file(path: &Path, bytes: &[u8]) -> Result<()> {
-    // Anything but a regular file (device, pipe, symlink, ...) has no previous contents to
-    // preserve, and must not be replaced by a regular file: write to it directly
+    // The file to replace is what the path finally names: follow symbolic links, so that the
+    // link stays a link and its target keeps its contents if writing fails
+    let path = &fs::canonicalize(path).unwrap_or_else(|_| path.to_path_buf());
+
+    // Anything but a regular file (device, pipe, ...) has no previous contents to preserve, and
+    // must not be replaced by a regular file: write to it directly
     let is_regular_or_absent = fs::symlink_metadata(path)
         .map(|meta| meta.is_file())
         .unwrap_or(true);
